@@ -74,6 +74,8 @@ def obj(rng, props: dict, sexp: dict, mode: str, depth: int) -> dict:
             # self references: at most one level
             if mode == "max" and depth < 2 and pe["kind"] == "ref":
                 out[name] = named(rng, pe["target"], sexp, "min", depth + 2)
+            elif mode == "max" and depth < 2 and pe["kind"] == "array":
+                out[name] = [named(rng, pe["items"]["target"], sexp, "min", depth + 2)]
             continue
         # properties with a declared default are always given explicitly: a model instance carries the default anyway,
         # so "absent" and "default" are indistinguishable on the wire and the comparison would be ambiguous
